@@ -75,7 +75,8 @@ def spaced(draw, toks, tight=1, loose=4):
 
 COMMENT_BODIES = ['', ' plain comment', ' ::id 1', ' ::snt a b c', ' ::k1 v1 ::k2 v2', ' junk ::k v', ' ::', ' :: v',
                   ' ::k', ' ::tok ( / : ~ " )', ' ::k \u2028x', ' ::k v\x85w', ' ::dup 1 ::dup 2', '::tight', ' ::k  two  spaces  ',
-                  ' ::url http://x/y#z', ' ::id 1  ::snt x', ' ::a b\t ::c d  ', ' ::k std::vec ::j 2', '!shebang ::k v', '#', '# # ::a b']
+                  ' ::url http://x/y#z', ' ::id 1  ::snt x', ' ::a b\t ::c d  ', ' ::k std::vec ::j 2', '!shebang ::k v', '#', '# # ::a b',
+                  ' ::id\t7', ' ::node\t0\twant-01', ' ::k\x1cv', ' ::k a\x1eb ::j c']
 
 
 @st.composite
